@@ -195,6 +195,13 @@ class CanonicalEvolutionDesigner(vza.PartiallySerializableDesigner,
 
   def load(self, metadata: vz.Metadata):
     self._population = type(self._population).recover(metadata)
+    # The number of trials seen decides between the sampling and the mutation
+    # phase, so it is part of the state. (Older dumps don't have it.)
+    self._num_trials_seen = int(
+        metadata.get('num_trials_seen', default=str(self._num_trials_seen))
+    )
 
   def dump(self) -> vz.Metadata:
-    return self._population.dump()
+    metadata = self._population.dump()
+    metadata['num_trials_seen'] = str(self._num_trials_seen)
+    return metadata
